@@ -31,7 +31,7 @@
 From FV Require Import Model.Base Model.Sink Model.Codes Model.Rice Model.Predict Model.Component Model.Flac Model.Parser Model.Ctor
   Model.Encoder
   Proofs.OpsLen Proofs.ParserP Proofs.BitRead Proofs.BitWrite Proofs.CtorP Proofs.ParseResidual Proofs.ParseSubframe
-  Proofs.EncodeFrameE2E Proofs.DecodeStream Proofs.ParseFrame Proofs.ParseFrameCtor Proofs.ParseStream Proofs.ParseEncoded.
+  Proofs.EncodeFrameE2E Proofs.DecodeStream Proofs.ParseFrame Proofs.ParseFrameCtor Proofs.ParseStream Proofs.ParseEncoded Proofs.BlockHyps.
 Local Open Scope N_scope.
 
 Theorem C15_number_parse : forall v bytes rest c,
@@ -114,3 +114,17 @@ Theorem C15_encoded_stream :
     parse_stream bytes = Some s.
 Proof. exact encoded_stream_parses_back. Qed.
 Print Assumptions C15_encoded_stream.
+
+(* the same with the hypotheses reduced to the LPC estimator's answers (none at all when the LPC branch is off) *)
+Theorem C15_encoded_stream_lpc :
+  forall (ent : N -> N -> N -> N) (qlpc : N -> N -> qparams) (md5 : list N -> list N)
+         cfg rate channels bps bs samples s bytes (total : nat),
+    encode_stream ent qlpc md5 cfg rate channels bps bs samples = Ok s -> stream_bytes s = Ok bytes ->
+    cfg_max_parameter cfg <= 14 -> In bps [8; 12; 16; 20; 24] -> rate <= 96000 -> 1 <= channels <= 8 ->
+    1 <= bs <= Generated.c_MAX_BLOCK_SIZE ->
+    length samples = (total * N.to_nat channels)%nat -> N.of_nat total < 2 ^ 36 ->
+    length (md5 (md5_input bps samples)) = 16%nat -> Forall (fun x => x < 256) (md5 (md5_input bps samples)) ->
+    stream_lpc_hyps qlpc cfg channels bs samples ->
+    parse_stream bytes = Some s.
+Proof. exact encoded_stream_parses_back_lpc. Qed.
+Print Assumptions C15_encoded_stream_lpc.
